@@ -81,6 +81,8 @@ func infra(format string, a ...interface{}) {
 // on the synchronous pipe, so the world still has exactly one active party.
 func (w *World) DoPipe(t *Task, method, path string, body []byte, tr *Transport, inj *Injection, stats *PlanStats) *OpResult {
 	pn := w.pipeNet()
+	w.pipeGoids = true // the handler runs on the server's connection goroutine
+	defer func() { w.pipeGoids = false }()
 	rec := w.begin(t, inj)
 	res := &OpResult{Kind: "http", Rec: rec}
 	client, server := net.Pipe()
